@@ -58,10 +58,10 @@ def jobs(tier):
         variants += [("VNACAL_E12", 2, 1, 1, 0, 0, 0), ("VNACAL_UE10", 2, 2, 1, 0, 0, 0),
                      ("VNACAL_T8", 2, 2, 1, 1, 0, 0), ("VNACAL_U8", 1, 1, 1, 1, 0, 0), ("VNACAL_TE10", 1, 1, 1, 0, 0, 0),
                      ("VNACAL_UE10", 1, 1, 1, 0, 0, 0), ("VNACAL_T8", 1, 1, 0, 1, 0, 0), ("VNACAL_UE14", 1, 1, 1, 1, 0, 0)]
-    for (t, r, c, prior, unk, merr, trl) in variants:
-        d = C20.CUT + ["-DCAL_TYPE=%s" % t, "-DCAL_ROWS=%d" % r, "-DCAL_COLS=%d" % c, "-DPRIOR=%d" % prior, "-DIS_TRL=%d" % trl] + \
+    for (t, r, c, prior, unk, merr, trl) in variants + [("VNACAL_T8", 1, 1, 1, 5, 0, 0), ("VNACAL_T8", 1, 1, 1, 1.5, 0, 0)]:
+        d = (["-DPRIOR_POINTS=%d" % (5 if unk == 5 else 1)] if unk in (5, 1.5) else []) + C20.CUT + ["-DCAL_TYPE=%s" % t, "-DCAL_ROWS=%d" % r, "-DCAL_COLS=%d" % c, "-DPRIOR=%d" % prior, "-DIS_TRL=%d" % trl] + \
             (["-DWITH_UNKNOWN"] if unk else []) + (["-DWITH_M_ERROR"] if merr else [])
-        J.append(V.Job("solve_frame.%s_%dx%d_prior%d%s%s%s" % (t[7:], r, c, prior, "_unknown" if unk else "", "_merror" if merr else "",
+        J.append(V.Job("solve_frame.%s_%dx%d_prior%d%s%s%s" % (t[7:], r, c, prior, ("_unknown" if unk == 1 else "_unknown_resolved%s" % ("5" if unk == 5 else "1")) if unk else "", "_merror" if merr else "",
                                                                   "_trl" if trl else ""),
                        "vnacal/c11_solve.c", "h_solve_frame", srcs, defines=d, unwind=20, union_struct=True, kind="bounded",
                        canary=(t == "VNACAL_T8" and prior and not unk and not merr and not trl),
